@@ -58,6 +58,17 @@ class UndefVersion(MarkerMixin):
     the metaclass then can check for its presence.
     """
 
+    def __init_subclass__(cls, **kwargs):
+        # prevent inheriting from a marked class also for plugin classes
+        # that do not use the plugin metaclass (which does the same check)
+        super().__init_subclass__(**kwargs)
+        for b in cls.__bases__:
+            if UndefVersion._is_marked(b):
+                orig = UndefVersion._unwrap(b)
+                msg = f"{cls.__name__}: Cannot inherit from {orig}, "
+                msg += "a plugin of unspecified version!"
+                raise TypeError(msg)
+
     @classmethod
     def _mark_class(cls, c):
         # NOTE: we also want to mark nested non-plugins to prevent subclassing
